@@ -165,7 +165,17 @@ fn parse_unverified<'a>(der_input: &'a [u8]) -> Result<P2pCertificate<'a>, webpk
             // }
             let public_key = RemotePublicKey::from_protobuf_encoding(&public_key_protobuf)
                 .map_err(|_| webpki::Error::UnknownIssuer)?;
-            let peer_id = PeerId::from_public_key_protobuf(&public_key_protobuf);
+            // The peer ID is the hash of the canonical protobuf encoding of the identity key.
+            // Protobuf decoding is lenient (field order, unknown fields, non-minimal varints),
+            // so hash the re-encoded key and not the received bytes.
+            let canonical_public_key = {
+                use prost::Message;
+
+                crate::crypto::keys_proto::PublicKey::decode(public_key_protobuf.as_slice())
+                    .map_err(|_| webpki::Error::UnknownIssuer)?
+                    .encode_to_vec()
+            };
+            let peer_id = PeerId::from_public_key_protobuf(&canonical_public_key);
             let ext = P2pExtension {
                 public_key,
                 signature,
